@@ -251,3 +251,62 @@ func VHKeyedTry() {
 	vAssert(vWait(), "TryLockKey/TryRLockKey never block, even while the key is being taken for the first time by a holder that keeps it")
 	vCover("keyed try done")
 }
+
+// VHKeyedPhases: two rounds of simultaneous first use. Round one: two goroutines use the
+// never-seen key k0 at once (so one of them loses the race to install its lock). Round two,
+// after quiescence: two goroutines use two further never-seen keys k1 and k2 at once; the
+// first keeps k1 locked for good, the second must still get k2 - whatever round one left
+// behind must not tie different keys together.
+func VHKeyedPhases() {
+	keys := c09keys()
+	k2 := vInt("key")
+	vAssume(k2 != keys[0])
+	vAssume(k2 != keys[1])
+	rw := vChoose("rw", 2) == 1
+	var km KeyedMutex[int]
+	var kr KeyedRWMutex[int]
+	inside := 0
+	for t := 0; t < 2; t++ {
+		vGo(func() {
+			if rw {
+				kr.LockKey(keys[0])
+			} else {
+				km.LockKey(keys[0])
+			}
+			inside++
+			vAssert(inside == 1, "phases: at most one goroutine holds k0")
+			inside--
+			if rw {
+				kr.UnlockKey(keys[0])
+			} else {
+				km.UnlockKey(keys[0])
+			}
+		})
+	}
+	vAssert(vWait(), "phases: both first users of k0 get through")
+	got := false
+	vGo(func() {
+		if rw {
+			kr.LockKey(keys[1])
+		} else {
+			km.LockKey(keys[1])
+		}
+	})
+	vGo(func() {
+		if rw {
+			got = kr.TryRLockKey(k2)
+		} else {
+			got = km.TryLockKey(k2)
+		}
+	})
+	vAssert(vWait(), "phases: first use of two different keys at once never blocks")
+	vAssert(got, "phases: TryLockKey of a never-seen key succeeds while only another key is held")
+	if rw {
+		vAssert(!kr.TryLockKey(keys[1]), "phases: k1 is still held")
+		vAssert(kr.TryLockKey(keys[0]), "phases: k0 is free again")
+	} else {
+		vAssert(!km.TryLockKey(keys[1]), "phases: k1 is still held")
+		vAssert(km.TryLockKey(keys[0]), "phases: k0 is free again")
+	}
+	vCover("keyed phases done")
+}
